@@ -145,6 +145,13 @@ def oracle(case, out):
             return "apply_random_mutations(%d) on a free space of %d positions changed %d positions (draw %d, numpy seed %d)" % (
                 case[2], case[1], o[1], o[0], case[3])
         return None
+    if k in ("choices", "localized"):
+        multi = [c for c in o[0] if len(c[2]) >= 2]
+        want = (min(c[0] for c in multi), max(c[1] for c in multi)) if multi else None
+        got = None if o[1] is None else tuple(o[1])
+        monotone = all(x[0] <= y[0] and x[1] <= y[1] for x, y in zip(multi, multi[1:]))
+        if monotone and got != want:
+            return "choices_span %s is not the segment covered by the multi-variant choices %s" % (got, want)
     if k == "localized":
         full = impl_case(("choices", case[1], "nosizecheck"))[0]
         a, b = case[2], case[3]
